@@ -65,7 +65,7 @@ def evalConv (args : List String) : String :=
       | .ok (.error e) => s!"kind={showBuildErr e} val=-"
       | .ok (.ok (rd, res)) =>
         let lin := match res with
-          | .value _ _ => s!" lin={showLinearFloat rd (UInt8.ofNat raw)}"
+          | .value _ _ => s!" ~lin={showLinearFloat rd (UInt8.ofNat raw)}"
           | _ => ""
         s!"kind={showKind rd} req={rd.lin.number.toNat}/{rd.lin.ownerLUN.toNat} val={showRead res}{lin}"
       | .err => "rec-err"
